@@ -3,7 +3,8 @@ TLC against FSATrace.tla (batched: one TLC run per file of histories)."""
 from .. import fsa_trace
 
 
-def run(run, n=None, length=None):
+def run(run, n=None, length=None, extra_traces=(), extra_verts=(), extra_labels=()):
+    """`extra_traces`: further recorded histories validated in the same TLC run (over the enlarged universe)"""
     quick = run.tier == "quick"
     n = n or (150 if quick else 1500)
     length = length or (40 if quick else 60)
@@ -12,11 +13,15 @@ def run(run, n=None, length=None):
     for tid, msg, tail in errors:
         run.violation(key="trace-raise:%s:%s" % (msg[:80], tail[-1:] if tail else ""), clause="raised:recording",
                       detail=dict(error=msg, last_events=tail))
+    traces = traces + list(extra_traces)
+    verts = sorted(set(verts) | set(extra_verts))
+    labels = sorted(set(labels) | set(extra_labels))
     ok, bad = fsa_trace.validate_and_report(run, traces, verts, labels)
     run.evaluations += sum(len(t) for t in traces)
     run.nontrivial_count += ok
     run.extra["trace_validation"] = dict(histories=len(traces), events=sum(len(t) for t in traces),
-                                         accepted=ok, rejected=bad, universe="6 vertices x 3 labels")
+                                         accepted=ok, rejected=bad, universe="6 vertices x 3 labels",
+                                         recorded_on_builtin_automata=len(extra_traces))
     if traces:
         run.sample(dict(kind="recorded history (first 4 events, views elided)",
                         events=[{k: v for k, v in e.items() if k != "post"} for e in traces[0][:4]]))
